@@ -17,6 +17,9 @@ submissions racing `Stop`), task durations and interleavings of submitters, work
 * `c19_panic_contained`     a panicking task leaves worker/dispatcher exactly where a returning one does
 * `c19_no_stuck_partial`    without `Stop`: while a task is pending or running some internal step or task end
                             is enabled (no deadlock, no stranded task)
+* `c19_completes_partial`   without `Stop`: a finite continuation of the pool's own steps exists after which every
+                            task handed over has run (`done` is a permutation of `handed`); every internal step
+                            decreases a measure
 * `c19_dropped_only_after_stop`
 * `c19_leak_counterexample`, `c19_serial_after_leak`   the pinned tree (`leak = true`): idle with counter 1,
                             after which two mutually waiting tasks can never run together  (repaired: `fix:` commit)
@@ -289,22 +292,13 @@ theorem c19_dropped_only_after_stop (g : Cfg) (as : List Act) :
     have := h.dropped (by simp only [s] at hd; rw [hd]; simp)
     simp only [s] at hc; rw [hc] at this; cases this
 
-/-- No stranded task without `Stop` (partial form of "every task handed over runs"): in every reachable
-    state in which `Stop` has not been called, as long as some task is pending (in a `Go` call, in the
-    queue, in the dispatcher's hands) or running, an internal step or a task end is enabled — there is no
-    deadlock, the pool cannot sit idle on a queued task.  (With scheduler fairness and terminating tasks
-    every task handed over therefore runs; `c19_at_most_once` says not twice.)
-    The hypothesis `stopAdd = false` cannot be dropped: `c19_stop_drop_counterexample`. -/
-theorem c19_no_stuck_partial (g : Cfg) (as : List Act) :
-    let s := run g init as
-    s.stopAdd = false → (pendingTasks s ≠ [] ∨ runningTasks s ≠ []) →
+theorem no_stuck (g : Cfg) (s : St) (hS : SInv g s) (hst : s.stopAdd = false)
+    (hwork : pendingTasks s ≠ [] ∨ runningTasks s ≠ []) :
     ∃ a, Act.internal a = true ∧ (step g s a).isSome = true := by
-  intro s hst hwork
-  have hS := sinv_run g as init (sinv_init g)
   have hne : s.disp ≠ .exited := by
     intro he
     have := hS.closed (hS.exited he)
-    simp only [s] at hst; rw [hst] at this; cases this
+    rw [hst] at this; cases this
   -- the dispatcher, unless blocked in its select on an empty queue, can always move
   have hdisp : (s.disp ≠ .idle ∨ s.queue ≠ []) → ∃ a, Act.internal a = true ∧ (step g s a).isSome = true := by
     intro h
@@ -357,6 +351,260 @@ theorem c19_no_stuck_partial (g : Cfg) (as : List Act) :
             exact ⟨i + 1, t, by simpa using h⟩
       obtain ⟨i, t, hw⟩ := this
       exact ⟨.wFinish i false, rfl, by simp [step, hw]⟩
+
+/-- No stranded task without `Stop` (partial form of "every task handed over runs"): in every reachable
+    state in which `Stop` has not been called, as long as some task is pending (in a `Go` call, in the
+    queue, in the dispatcher's hands) or running, an internal step or a task end is enabled — there is no
+    deadlock, the pool cannot sit idle on a queued task.
+    The hypothesis `stopAdd = false` cannot be dropped: `c19_stop_drop_counterexample`. -/
+theorem c19_no_stuck_partial (g : Cfg) (as : List Act) :
+    (run g init as).stopAdd = false →
+    (pendingTasks (run g init as) ≠ [] ∨ runningTasks (run g init as) ≠ []) →
+    ∃ a, Act.internal a = true ∧ (step g (run g init as) a).isSome = true :=
+  no_stuck g _ (sinv_run g as init (sinv_init g))
+
+/-! ### ... and every task handed over does run (exactly once) -/
+
+def wWeight : WPh → Nat | .running _ => 4 | .idle => 2 | .exiting => 1
+def gWeight : GoPh → Nat | .failed _ => 10 | .enq _ => 9
+def dWeight : Disp → Nat | .holding _ => 7 | .failed _ => 6 | .running _ => 4 | .idle => 1 | .exited => 0
+
+/-- a measure that every internal step and every task end decreases -/
+def mu (s : St) : Nat :=
+  (s.goers.map gWeight).sum + 8 * s.queue.length + (s.workers.map wWeight).sum + dWeight s.disp
+
+theorem sum_map_set {α : Type} (f : α → Nat) : ∀ (l : List α) (i : Nat) (x y : α), l[i]? = some x →
+    ((l.set i y).map f).sum + f x = (l.map f).sum + f y := by
+  intro l
+  induction l with
+  | nil => intro i x y h; simp at h
+  | cons a as ih =>
+    intro i x y h
+    cases i with
+    | zero => simp at h; subst h; simp; omega
+    | succ j =>
+      simp at h
+      have := ih j x y h
+      simp at this ⊢; omega
+
+theorem sum_map_eraseIdx {α : Type} (f : α → Nat) : ∀ (l : List α) (i : Nat) (x : α), l[i]? = some x →
+    ((l.eraseIdx i).map f).sum + f x = (l.map f).sum := by
+  intro l
+  induction l with
+  | nil => intro i x h; simp at h
+  | cons a as ih =>
+    intro i x h
+    cases i with
+    | zero => simp at h; subst h; simp; omega
+    | succ j =>
+      simp at h
+      have := ih j x h
+      simp at this ⊢; omega
+
+theorem internal_decreases (g : Cfg) (s s' : St) (a : Act) (ha : Act.internal a = true)
+    (hs : step g s a = some s') : mu s' < mu s ∧ s'.handed = s.handed ∧ s'.stopAdd = s.stopAdd := by
+  cases a with
+  | go t => simp [Act.internal] at ha
+  | stopAdd => simp [Act.internal] at ha
+  | stopClose => simp [Act.internal] at ha
+  | goUndo i =>
+    simp only [step] at hs
+    split at hs
+    · rename_i t hg
+      cases hs
+      have := sum_map_set gWeight s.goers i _ (.enq t) hg
+      simp [mu, gWeight] at this ⊢; omega
+    · cases hs
+  | goEnq i =>
+    simp only [step] at hs
+    split at hs
+    · rename_i t hg
+      have := sum_map_eraseIdx gWeight s.goers i _ hg
+      split at hs
+      · cases hs
+        simp [mu, gWeight] at this ⊢; omega
+      · split at hs
+        · rename_i hidle
+          cases hs
+          have hd : s.disp = .idle := hidle.2.1
+          simp [mu, gWeight, dWeight, hd] at this ⊢; omega
+        · cases hs
+    · cases hs
+  | goDrop i =>
+    simp only [step] at hs
+    split at hs
+    · rename_i t hg
+      have := sum_map_eraseIdx gWeight s.goers i _ hg
+      split at hs
+      · cases hs
+        simp [mu, gWeight] at this ⊢; omega
+      · cases hs
+    · cases hs
+  | wFinish i p =>
+    simp only [step] at hs
+    split at hs
+    · rename_i t hw
+      cases hs
+      have := sum_map_set wWeight s.workers i _ .idle hw
+      simp [mu, wWeight] at this ⊢; omega
+    · cases hs
+  | wTake i =>
+    simp only [step] at hs
+    split at hs
+    · rename_i hw
+      split at hs
+      · rename_i t q hq
+        cases hs
+        have := sum_map_set wWeight s.workers i _ (.running t) hw
+        simp [mu, wWeight, hq] at this ⊢; omega
+      · rename_i hq
+        cases hs
+        have := sum_map_set wWeight s.workers i _ .exiting hw
+        simp [mu, wWeight, hq] at this ⊢; omega
+    · cases hs
+  | wRdv i k =>
+    simp only [step] at hs
+    split at hs
+    · rename_i t hw hg
+      split at hs
+      · cases hs
+        have h1 := sum_map_set wWeight s.workers i _ (.running t) hw
+        have h2 := sum_map_eraseIdx gWeight s.goers k _ hg
+        simp [mu, wWeight, gWeight] at h1 h2 ⊢; omega
+      · cases hs
+    · cases hs
+  | wExit i =>
+    simp only [step] at hs
+    split at hs
+    · rename_i hw
+      cases hs
+      have := sum_map_eraseIdx wWeight s.workers i _ hw
+      simp [mu, wWeight] at this ⊢; omega
+    · cases hs
+  | dRecv =>
+    simp only [step] at hs
+    split at hs
+    · rename_i t q hd hq
+      cases hs
+      simp [mu, dWeight, hd, hq]; omega
+    · cases hs
+  | dExit =>
+    simp only [step] at hs
+    split at hs
+    · rename_i hd
+      split at hs
+      · cases hs; simp [mu, dWeight, hd]
+      · cases hs
+    · cases hs
+  | dFork =>
+    simp only [step] at hs
+    split at hs
+    · rename_i t hd
+      split at hs <;> cases hs <;> (simp [mu, dWeight, wWeight, hd]; try omega)
+    · cases hs
+  | dUndo =>
+    simp only [step] at hs
+    split at hs
+    · rename_i t hd
+      cases hs
+      simp [mu, dWeight, hd]
+    · cases hs
+  | dFinish p =>
+    simp only [step] at hs
+    split at hs
+    · rename_i t hd
+      cases hs
+      simp [mu, dWeight, hd]
+    · cases hs
+
+theorem completes_aux (g : Cfg) : ∀ (n : Nat) (s : St), SInv g s → s.stopAdd = false → mu s ≤ n →
+    ∃ bs, (∀ b ∈ bs, Act.internal b = true) ∧ pendingTasks (run g s bs) = [] ∧ runningTasks (run g s bs) = [] ∧
+      (run g s bs).handed = s.handed ∧ (run g s bs).stopAdd = false := by
+  intro n
+  induction n with
+  | zero =>
+    intro s hS hst hm
+    by_cases hw : pendingTasks s ≠ [] ∨ runningTasks s ≠ []
+    · obtain ⟨a, ha, hen⟩ := no_stuck g s hS hst hw
+      obtain ⟨s1, hs1⟩ := Option.isSome_iff_exists.mp hen
+      have := (internal_decreases g s s1 a ha hs1).1
+      omega
+    · have hp : pendingTasks s = [] := Classical.byContradiction fun h => hw (.inl h)
+      have hr : runningTasks s = [] := Classical.byContradiction fun h => hw (.inr h)
+      exact ⟨[], by simp, hp, hr, rfl, hst⟩
+  | succ n ih =>
+    intro s hS hst hm
+    by_cases hw : pendingTasks s ≠ [] ∨ runningTasks s ≠ []
+    · obtain ⟨a, ha, hen⟩ := no_stuck g s hS hst hw
+      obtain ⟨s1, hs1⟩ := Option.isSome_iff_exists.mp hen
+      obtain ⟨hlt, hh, hsa⟩ := internal_decreases g s s1 a ha hs1
+      obtain ⟨bs, h1, h2, h3, h4, h5⟩ := ih s1 (sinv_step g s s1 a hS hs1) (by rw [hsa]; exact hst) (by omega)
+      refine ⟨a :: bs, ?_, ?_, ?_, ?_, ?_⟩
+      · intro b hb
+        rcases List.mem_cons.mp hb with hb | hb
+        · rw [hb]; exact ha
+        · exact h1 b hb
+      all_goals simp only [run, hs1]
+      · exact h2
+      · exact h3
+      · rw [h4, hh]
+      · exact h5
+    · have hp : pendingTasks s = [] := Classical.byContradiction fun h => hw (.inl h)
+      have hr : runningTasks s = [] := Classical.byContradiction fun h => hw (.inr h)
+      exact ⟨[], by simp, hp, hr, rfl, hst⟩
+
+/-- Exactly-once, liveness half (no `Stop`): from every reachable state in which `Stop` has not been
+    called there is a finite continuation consisting only of the pool's own steps and task ends (no new
+    `Go`, no `Stop`) after which **every task handed over so far has run**: nothing is pending, nothing is
+    running, nothing was dropped, and `done` is a permutation of `handed` (with `c19_at_most_once`: each
+    exactly once).  Every internal step decreases a measure, so under a fair scheduler with terminating
+    tasks every schedule is such a continuation.  The hypothesis `stopAdd = false` is necessary
+    (`c19_stop_drop_counterexample`). -/
+theorem c19_completes_partial (g : Cfg) (as : List Act) (hst : (run g init as).stopAdd = false) :
+    ∃ bs, (∀ b ∈ bs, Act.internal b = true) ∧
+      let s' := run g (run g init as) bs
+      pendingTasks s' = [] ∧ runningTasks s' = [] ∧ s'.dropped = [] ∧ s'.handed = (run g init as).handed ∧
+      s'.done.Perm (run g init as).handed := by
+  have hS := sinv_run g as init (sinv_init g)
+  obtain ⟨bs, h1, h2, h3, h4, h5⟩ := completes_aux g (mu (run g init as)) (run g init as) hS hst (Nat.le_refl _)
+  refine ⟨bs, h1, h2, h3, ?_, h4, ?_⟩
+  · -- nothing dropped: the channel was never closed
+    have hS' := sinv_run g bs (run g init as) hS
+    cases hd : (run g (run g init as) bs).dropped with
+    | nil => rfl
+    | cons x xs =>
+      have hc := hS'.closed (hS'.dropped (by rw [hd]; simp))
+      rw [h5] at hc; cases hc
+  · -- conservation with every other component empty
+    have hrun : run g (run g init as) bs = run g init (as ++ bs) := by
+      clear h1 h2 h3 h4 h5 hS hst
+      generalize init = s0
+      induction as generalizing s0 with
+      | nil => rfl
+      | cons a as ih =>
+        simp only [List.cons_append, run]
+        split <;> exact ih _
+    have hcons := c19_conservation g (as ++ bs)
+    rw [← hrun] at hcons
+    rw [← h4]
+    have hS' := sinv_run g bs (run g init as) hS
+    have hdrop : (run g (run g init as) bs).dropped = [] := by
+      cases hd : (run g (run g init as) bs).dropped with
+      | nil => rfl
+      | cons x xs =>
+        have hc := hS'.closed (hS'.dropped (by rw [hd]; simp))
+        rw [h5] at hc; cases hc
+    have hall : allTasks (run g (run g init as) bs) = (run g (run g init as) bs).done := by
+      generalize run g (run g init as) bs = s' at h2 h3 hdrop
+      simp only [pendingTasks, List.append_eq_nil_iff] at h2
+      simp only [runningTasks, List.append_eq_nil_iff] at h3
+      obtain ⟨⟨hg, hq⟩, hdp⟩ := h2
+      obtain ⟨hw, hdr⟩ := h3
+      have hdt : dTask s'.disp = [] := by
+        revert hdp hdr; cases s'.disp <;> simp [dTask, dPend, dRun]
+      simp [allTasks, hg, hq, hw, hdt, hdrop]
+    rw [hall] at hcons
+    exact hcons
 
 /-! ### the defect that was repaired (pinned tree: `leak = true`) -/
 
